@@ -203,7 +203,15 @@ class loops(wrapper):
         else:
             return self._wrapped(arg, args_, kwargs_)
     
+    def _accepts_axis(self):
+        try:
+            spec = getargspec(self.function)
+            return 'axis' in (spec.args or []) + (spec.kwonlyargs or []) or spec.varkw is not None
+        except Exception:
+            return False
+
     def _wrapped(self, arg, args, kwargs):
+        direct = dict(kwargs) if 'axis' in kwargs and self._accepts_axis() else None ## the function's own axis parameter, if we end up not looping at all
         axis = kwargs.pop('axis', 0)
         if isinstance(arg, dict) and type(arg) in self.types:
             keys = sorted(arg.keys())
@@ -237,7 +245,7 @@ class loops(wrapper):
             res = [self._wrapped(arg[i], (_item_by_i(a,i,n) for a in args), {k: _item_by_i(v,i,n) for k, v in kwargs.items()}) for i in range(n)]                            
             return type(arg)(res)
         else:
-            return self.function(arg, *args, **kwargs)
+            return self.function(arg, *args, **(kwargs if direct is None else direct))
 
 
 
